@@ -216,6 +216,10 @@ prop("C09", "The parsed tree reflects the program, not its layout", [
     ("trailing_blanks_dropped", "trim_right_blank_nonempty", "blanks and tabs at the end of a control line are trimmed and never empty the line"),
     ("comments_produce_no_node", "comment_skipped", "whole-line # comments are consumed without a node (// likewise, by the same branch)"),
     ("control_line_cut", "next_ctl_spec", "a control line is cut out of the text at the first non-layout byte"),
+    ("statement_same_before_LF_or_CR", "stmt_cut_at_line_end", "a statement (no braces, no semicolon) followed by LF or CR -- hence also CR LF -- is cut out as exactly that statement"),
+    ("statement_same_at_end_of_text", "stmt_cut_at_eof", "the same statement at the very end of the text, without a final newline"),
+    ("statement_same_before_semicolon", "stmt_cut_at_semicolon", "and followed by `;` and anything brace-free up to the end of the line"),
+    ("header_cut_at_its_brace", "header_cut_at_brace", "a block header is cut at its opening brace (the first one not preceded by a dot), whatever follows on the line"),
 ], imports=PARSER_IMPORTS)
 
 prop("C20", "Parse is a pure function of the rule text", [
